@@ -41,6 +41,7 @@ import AutomataVerif.Proofs.NFAElimSpec
 import AutomataVerif.Proofs.NFAOpsRQ
 import AutomataVerif.Proofs.NFAOpsLQ
 import AutomataVerif.Proofs.NFAOpsShuffle
+import AutomataVerif.Proofs.NFAMapStates
 import AutomataVerif.Props.C01
 
 namespace AV.Props.C08
@@ -497,6 +498,171 @@ theorem C08_expr_example {τ₁ τ₂ τ₃ τ₄ : Type} [DecidableEq τ₁] [D
       (Computes.concatenate (Computes.union (Computes.leaf hA) (Computes.leaf hB)) (Computes.leaf hC)))
     (Computes.reverse nat hnat (Computes.leaf hD))
 
+/-! ## results fed into further operations, with Python's single universe of names
+
+`Computes.kleeneStar/option/reverse` above take an arbitrary injective `nat : ℕ → τ`.  For a
+result of `intersection`, `shuffle_product` or a quotient the name type `τ` is a tuple type,
+and what Python does next is to add the INT `0` (or `1`, …) next to the tuples: mixed names.
+Here every operation is stated over the universal name type `PyName` (Model/NFAOpsPy.lean:
+`int | pair | triple | other`), results being re-embedded by the canonical injections
+(`Nat ↦ int`, pairs ↦ `pair`, triples ↦ `triple`), and the fresh state of the unary
+operations is `PyName.nat k = int k` — faithful to Python's mixed names. -/
+
+/-- **State renaming.**  Renaming the states of a valid NFA through an injective function
+gives a valid NFA with the same language. -/
+theorem mapStates_valid_lang {τ : Type} [DecidableEq τ] (f : σ → τ) (hf : Function.Injective f)
+    (n : AV.NFA σ α) (h : n.Valid) : (n.mapStates f).Valid ∧ Lang (n.mapStates f) = Lang n :=
+  ⟨MapStates.mapStates_valid f n hf h, MapStates.mapStates_lang f n hf h.wf⟩
+
+/-- Embedding the names of a computed result keeps it a successful computation of a valid
+NFA with the same language. -/
+theorem Computes.mapRes {τ₁ τ₂ : Type} [DecidableEq τ₁] [DecidableEq τ₂] {x : Res (AV.NFA τ₁ α)}
+    {L : Language α} (f : τ₁ → τ₂) (hf : Function.Injective f) (hx : Computes x L) :
+    Computes (NFA.mapRes f x) L := by
+  obtain ⟨a, rfl, ha, rfl⟩ := hx
+  obtain ⟨hv, hl⟩ := mapStates_valid_lang f hf a ha
+  exact ⟨a.mapStates f, rfl, hv, hl⟩
+
+section pyname
+variable {A B : AV.NFA PyName α}
+
+/-- The nine operations over `PyName`: total, valid, textbook language — so results can be
+fed into ANY further operation, whatever the shapes of their names. -/
+theorem C08_py_union (hA : A.Valid) (hB : B.Valid) :
+    Computes (Py.union A B) (Lang A + Lang B) :=
+  Computes.mapRes _ MapStates.nat_injective (C08_union A B hA hB)
+
+theorem C08_py_concatenate (hA : A.Valid) (hB : B.Valid) :
+    Computes (Py.concatenate A B) (Lang A * Lang B) :=
+  Computes.mapRes _ MapStates.nat_injective (C08_concatenate A B hA hB)
+
+theorem C08_py_intersection (hA : A.Valid) (hB : B.Valid) :
+    Computes (Py.intersection A B) (Lang A ⊓ Lang B) :=
+  Computes.mapRes _ MapStates.ofPair_injective (C08_intersection A B hA hB)
+
+theorem C08_py_shuffle_product (hA : A.Valid) (hB : B.Valid) :
+    Computes (Py.shuffleProduct A B) (shuffleLang (Lang A) (Lang B)) :=
+  Computes.mapRes _ MapStates.ofPair_injective (C08_shuffle_product A B hA hB)
+
+theorem C08_py_right_quotient (hA : A.Valid) (hB : B.Valid) :
+    Computes (Py.rightQuotient A B) (rightQuotientLang (Lang A) (Lang B)) :=
+  Computes.mapRes _ MapStates.ofTriple_injective (C08_right_quotient A B hA hB)
+
+theorem C08_py_left_quotient (hA : A.Valid) (hB : B.Valid) :
+    Computes (Py.leftQuotient A B) (leftQuotientLang (Lang A) (Lang B)) :=
+  Computes.mapRes _ MapStates.ofTriple_injective (C08_left_quotient A B hA hB)
+
+/-- `kleene_star` / `option` / `reverse` of an NFA with names of ANY shape (ints, tuples,
+mixed): the fresh state is the first int `0, 1, 2, …` that is not a state. -/
+theorem C08_py_kleene_star (hA : A.Valid) : Computes (Py.kleeneStar A) (KStar.kstar (Lang A)) :=
+  C08_kleene_star PyName.nat MapStates.nat_injective A hA
+
+theorem C08_py_option (hA : A.Valid) : Computes (Py.option A) (1 + Lang A) :=
+  C08_option PyName.nat MapStates.nat_injective A hA
+
+theorem C08_py_reverse (hA : A.Valid) : Computes (Py.reverse A) (Lang A).reverse :=
+  C08_reverse PyName.nat MapStates.nat_injective A hA
+
+end pyname
+
+/-- `Computes.kleeneStar/option/reverse` for results embedded in `PyName`, with
+`nat := PyName.int ∘ Int.ofNat`: the operand may be the (embedded) result of an
+intersection, a shuffle product or a quotient. -/
+theorem Computes.kleeneStarPy {x : Res (AV.NFA PyName α)} {L : Language α} (hx : Computes x L) :
+    Computes (do let a ← x; Py.kleeneStar a) (KStar.kstar L) :=
+  Computes.kleeneStar PyName.nat MapStates.nat_injective hx
+
+theorem Computes.optionPy {x : Res (AV.NFA PyName α)} {L : Language α} (hx : Computes x L) :
+    Computes (do let a ← x; Py.option a) (1 + L) :=
+  Computes.option PyName.nat MapStates.nat_injective hx
+
+theorem Computes.reversePy {x : Res (AV.NFA PyName α)} {L : Language α} (hx : Computes x L) :
+    Computes (do let a ← x; Py.reverse a) L.reverse :=
+  Computes.reverse PyName.nat MapStates.nat_injective hx
+
+/-- **Instance: `kleene_star(intersection(A, B))`** — pair names plus the int `0`. -/
+theorem C08_star_of_intersection (A B : AV.NFA PyName α) (hA : A.Valid) (hB : B.Valid) :
+    Computes (do let c ← Py.intersection A B; Py.kleeneStar c) (KStar.kstar (Lang A ⊓ Lang B)) :=
+  Computes.kleeneStarPy (C08_py_intersection hA hB)
+
+/-- … and the same for operands of any two name types `σ₁`, `σ₂` embedded by injections
+(`e₁`, `e₂`): the typed intersection, its pair names embedded into `PyName`, then
+`kleene_star` adding an int. -/
+theorem C08_star_of_intersection_typed (e₁ : σ₁ → PyName) (e₂ : σ₂ → PyName)
+    (h₁ : Function.Injective e₁) (h₂ : Function.Injective e₂)
+    (A : AV.NFA σ₁ α) (B : AV.NFA σ₂ α) (hA : A.Valid) (hB : B.Valid) :
+    Computes (do let c ← NFA.mapRes (fun p => PyName.pair (e₁ p.1) (e₂ p.2)) (NFA.intersection A B)
+                 Py.kleeneStar c)
+      (KStar.kstar (Lang A ⊓ Lang B)) := by
+  refine Computes.kleeneStarPy (Computes.mapRes _ ?_ (C08_intersection A B hA hB))
+  rintro ⟨a, b⟩ ⟨c, d⟩ h
+  simp only [PyName.pair.injEq] at h
+  rw [h₁ h.1, h₂ h.2]
+
+/-- The textbook denotation of an expression tree. -/
+def denote : OpExpr α → Language α
+  | .leaf n => Lang n
+  | .union l r => denote l + denote r
+  | .concatenate l r => denote l * denote r
+  | .intersection l r => denote l ⊓ denote r
+  | .shuffleProduct l r => shuffleLang (denote l) (denote r)
+  | .rightQuotient l r => rightQuotientLang (denote l) (denote r)
+  | .leftQuotient l r => leftQuotientLang (denote l) (denote r)
+  | .kleeneStar e => KStar.kstar (denote e)
+  | .option e => 1 + denote e
+  | .reverse e => (denote e).reverse
+
+/-- Every leaf of the tree is a valid NFA. -/
+def LeavesValid : OpExpr α → Prop
+  | .leaf n => n.Valid
+  | .union l r | .concatenate l r | .intersection l r | .shuffleProduct l r
+  | .rightQuotient l r | .leftQuotient l r => LeavesValid l ∧ LeavesValid r
+  | .kleeneStar e | .option e | .reverse e => LeavesValid e
+
+theorem Computes.bind2 {x y : Res (AV.NFA PyName α)} {L₁ L₂ : Language α}
+    {op : AV.NFA PyName α → AV.NFA PyName α → Res (AV.NFA PyName α)}
+    (F : Language α → Language α → Language α)
+    (hx : Computes x L₁) (hy : Computes y L₂)
+    (hop : ∀ a b : AV.NFA PyName α, a.Valid → b.Valid → Computes (op a b) (F (Lang a) (Lang b))) :
+    Computes (do let a ← x; let b ← y; op a b) (F L₁ L₂) := by
+  obtain ⟨a, rfl, ha, rfl⟩ := hx
+  obtain ⟨b, rfl, hb, rfl⟩ := hy
+  exact hop a b ha hb
+
+theorem Computes.bind1 {x : Res (AV.NFA PyName α)} {L₁ : Language α}
+    {op : AV.NFA PyName α → Res (AV.NFA PyName α)} (F : Language α → Language α)
+    (hx : Computes x L₁)
+    (hop : ∀ a : AV.NFA PyName α, a.Valid → Computes (op a) (F (Lang a))) :
+    Computes (do let a ← x; op a) (F L₁) := by
+  obtain ⟨a, rfl, ha, rfl⟩ := hx
+  exact hop a ha
+
+/-- **C08 (results fed into further operations), every finite expression tree.**  Whatever
+the tree built from the nine operations over valid leaves — unary operations on top of
+products and quotients included, names mixing ints and tuples as in Python — its evaluation
+raises no error and yields a valid NFA whose language is the textbook denotation. -/
+theorem C08_expr (e : OpExpr α) (h : LeavesValid e) : Computes e.eval (denote e) := by
+  induction e with
+  | leaf n => exact Computes.leaf h
+  | union l r ihl ihr =>
+    exact Computes.bind2 (· + ·) (ihl h.1) (ihr h.2) fun _ _ ha hb => C08_py_union ha hb
+  | concatenate l r ihl ihr =>
+    exact Computes.bind2 (· * ·) (ihl h.1) (ihr h.2) fun _ _ ha hb => C08_py_concatenate ha hb
+  | intersection l r ihl ihr =>
+    exact Computes.bind2 (· ⊓ ·) (ihl h.1) (ihr h.2) fun _ _ ha hb => C08_py_intersection ha hb
+  | shuffleProduct l r ihl ihr =>
+    exact Computes.bind2 shuffleLang (ihl h.1) (ihr h.2) fun _ _ ha hb =>
+      C08_py_shuffle_product ha hb
+  | rightQuotient l r ihl ihr =>
+    exact Computes.bind2 rightQuotientLang (ihl h.1) (ihr h.2) fun _ _ ha hb =>
+      C08_py_right_quotient ha hb
+  | leftQuotient l r ihl ihr =>
+    exact Computes.bind2 leftQuotientLang (ihl h.1) (ihr h.2) fun _ _ ha hb =>
+      C08_py_left_quotient ha hb
+  | kleeneStar e ih => exact Computes.bind1 KStar.kstar (ih h) fun _ ha => C08_py_kleene_star ha
+  | option e ih => exact Computes.bind1 (1 + ·) (ih h) fun _ ha => C08_py_option ha
+  | reverse e ih => exact Computes.bind1 Language.reverse (ih h) fun _ ha => C08_py_reverse ha
+
 /-! ## non-vacuity: concrete valid operands, concrete results -/
 
 /-- `a*` with an ε-cycle, a state without a row and a junk row keyed by the non-state `1`
@@ -534,5 +700,29 @@ example : (match NFA.leftQuotient exA exEmpty with
 example : (match NFA.rightQuotient exA exA with
     | .ok R => R.accepts [] && R.accepts [0, 0]
     | .error _ => false) = true := by decide
+
+/-- `exA` and `exB` with their int names in the universal name type. -/
+def pyA : AV.NFA PyName Nat := exA.mapStates PyName.nat
+def pyB : AV.NFA PyName Nat := exB.mapStates PyName.nat
+
+theorem pyA_valid : pyA.Valid := (mapStates_valid_lang _ MapStates.nat_injective exA exA_valid).1
+theorem pyB_valid : pyB.Valid := (mapStates_valid_lang _ MapStates.nat_injective exB exB_valid).1
+
+/-- `kleene_star(intersection(A, A))` in the model: the states are the pairs `(0,0), (2,2), …`
+PLUS the int `0` chosen by `_add_new_state` (mixed names, as in Python); the result accepts
+`ε` and `aa`. -/
+example : (match (OpExpr.kleeneStar (.intersection (.leaf pyA) (.leaf pyA))).eval with
+    | .ok R => decide (R.init = PyName.int 0) && decide (PyName.pair (.int 0) (.int 0) ∈ R.states) &&
+        R.accepts [] && R.accepts [0, 0] && !R.accepts [1]
+    | .error _ => false) = true := by decide
+
+/-- `reverse(right_quotient(A, A)) | B`: triples, then an int next to them, then a union. -/
+example : (match (OpExpr.union (.reverse (.rightQuotient (.leaf pyA) (.leaf pyA))) (.leaf pyB)).eval with
+    | .ok R => R.accepts [0, 0] && R.accepts [1] && !R.accepts [1, 0]
+    | .error _ => false) = true := by decide
+
+example : Computes (OpExpr.kleeneStar (.intersection (.leaf pyA) (.leaf pyA))).eval
+    (KStar.kstar (Lang pyA ⊓ Lang pyA)) :=
+  C08_expr _ ⟨pyA_valid, pyA_valid⟩
 
 end AV.Props.C08
